@@ -143,7 +143,8 @@ fn main() {
         }
         "C18" => {
             parts.push(make_part("sched-mem", "SCHED", cli.cases(3_000, 150_000), || vcore::gen::c18_strategy(proptest::strategy::Just(vcore::conv::Transport::Mem).boxed()), |_| (), |_, c| convsched::mem_sched_verdict("C18", c, &|c, e, o| vcore::oracles::c18_oracle(c, e, o))));
-            ("part sched-mem: the C18 cases through the sequential in-memory engine under the controlled runtime (self-blocking = exact deadlock report)", sched_assumptions)
+            parts.push(make_part("sched-conn", "SCHED", cli.cases(4_000, 200_000), convsched::c18_conn_strategy, |_| (), |_, c| convsched::c18_conn_oracle(c, &convsched::run_sched_conv(c))));
+            ("part sched-mem: the C18 cases through the sequential in-memory engine under the controlled runtime (self-blocking = exact deadlock report); part sched-conn: 2-4 requests on one connection, with and without Expect: 100-continue, each handled by its own task (body read to its end / touched / not asked for, some virtual time between reading and answering), eager or paced client, generated schedule: every 100 stands directly before the final response of its own request, after all earlier final responses, exactly when the body was asked for; non-trivial: an interim response is due for a request that is not the first on its connection", sched_assumptions)
         }
         "C06" => {
             parts.push(make_part("sched-conn", "SCHED", cli.cases(4_000, 200_000), convsched::c01_strategy, |_| (), |_, c| {
